@@ -245,6 +245,7 @@ pub fn suites(check: &str, thorough: bool) -> (Vec<SeqSuite>, String) {
                         Op::Poll(0, 0),
                         Op::Poll(0, 1),
                         Op::StreamIsTerm(0),
+                        Op::MoveStream(0),
                         Op::FDrop(0),
                         Op::TrySend,
                         Op::FSend(1),
@@ -354,7 +355,7 @@ impl Shape {
                     return false;
                 }
             }
-            Op::StreamIsTerm(s) => {
+            Op::StreamIsTerm(s) | Op::MoveStream(s) => {
                 if self.live[s as usize] != 3 {
                     return false;
                 }
